@@ -16,6 +16,7 @@ import (
 	"encoding/hex"
 	"fmt"
 	"sort"
+	"strings"
 
 	"github.com/hashicorp/go-hclog"
 	"github.com/hashicorp/raft"
@@ -437,7 +438,13 @@ func cfgOf(kind, name string, val int) structs.ConfigEntry {
 	var e structs.ConfigEntry
 	switch kind {
 	case structs.ServiceDefaults:
-		e = &structs.ServiceConfigEntry{Kind: kind, Name: name, Meta: meta}
+		sd := &structs.ServiceConfigEntry{Kind: kind, Name: name, Meta: meta}
+		if strings.HasPrefix(name, graphPrefix) && val == 1 { // graph stream: content 1 = http
+			sd.Protocol = "http"
+		}
+		e = sd
+	case structs.ServiceSplitter:
+		e = &structs.ServiceSplitterConfigEntry{Kind: kind, Name: name, Meta: meta, Splits: []structs.ServiceSplit{{Weight: 100}}}
 	case structs.ServiceResolver:
 		e = &structs.ServiceResolverConfigEntry{Kind: kind, Name: name, Meta: meta}
 	case structs.ProxyDefaults:
